@@ -265,8 +265,11 @@ ImplWalkVars(v) ==
       [] v.k = "generic" -> UNION {ImplWalkVars(v.args[i]) : i \in 1..Len(v.args)}                       \* value.py:1141
       [] v.k = "seq" -> UNION {ImplWalkVars(v.ms[i].t) : i \in 1..Len(v.ms)}                              \* value.py:1275
       [] v.k = "dictinc" -> UNION {ImplWalkVars(v.kvs[i].key) \cup ImplWalkVars(v.kvs[i].val) : i \in 1..Len(v.kvs)}   \* value.py:1348
-      \* TypedDictValue.walk_values (value.py:1704) yields the entry types only -- not extra_keys
-      [] v.k \in {"typeddict", "tdx"} -> UNION {ImplWalkVars(v.items[i].t) : i \in 1..Len(v.items)}
+      \* TypedDictValue.walk_values (value.py:1704) yields the entry types and (since fix b707bb5) the extra-keys type;
+      \* Bug = "extra-keys-not-walked" is the behaviour before the fix (sensitivity cfg SubstContexts.bug_extrakeys.cfg)
+      [] v.k = "typeddict" -> UNION {ImplWalkVars(v.items[i].t) : i \in 1..Len(v.items)}
+      [] v.k = "tdx" -> UNION ({ImplWalkVars(v.items[i].t) : i \in 1..Len(v.items)}
+                               \cup (IF Bug = "extra-keys-not-walked" THEN {} ELSE {ImplWalkVars(v.extra[i]) : i \in 1..Len(v.extra)}))
       [] v.k = "asynctask" -> ImplWalkVars(v.t)                                                            \* value.py:1730
       \* CallableValue (value.py:1756) -> Signature.walk_values (signature.py:1809): return value and annotations
       [] v.k = "callable" -> ImplWalkVars(v.ret) \cup UNION {UNION {ImplWalkVars(v.ps[i].t[j]) : j \in 1..Len(v.ps[i].t)} : i \in 1..Len(v.ps)}
@@ -300,8 +303,8 @@ AllVars == {"T", "S"}
 \*    below it is neither replaced nor seen by extract_typevars
 Dev_UnpackedNotSubstituted(a, m) == HasKindWithVars(a, "unpacked", DOMAIN m)
 Dev_UnpackedNotWalked(a) == HasKindWithVars(a, "unpacked", AllVars)
-\* 2. TypedDictValue.walk_values (value.py:1704) does not yield extra_keys (substitute_typevars does substitute it)
-Dev_ExtraKeysNotWalked(a) == HasKindWithVars(a, "tdx", AllVars)
+\* 2. (repaired, /repo b707bb5: TypedDictValue.walk_values now yields extra_keys; it used to be the deviation class
+\*    typeddict-extra-keys-not-walked.  A regression is a plain violation of ExtractTypevarsAgrees.)
 \* 3. KnownValue.substitute_typevars (value.py:654) turns a literal of a callable object into a KnownValueWithTypeVars, which
 \*    compares equal to the original (KnownValue.__eq__) but hashes differently (generated dataclass hash over (val,)):
 \*    substitution is not the identity on the closed value as far as hashing (set / dict membership, union merging) goes;
@@ -354,7 +357,7 @@ L_Identity(a, m) == L_IdentityStrict(a, m) \/ Dev_CallableLiteralRehashed(a)
 L_Commutes(a, b, m) == ImplEq(SubstM(U2(a, b), m), U2(SubstM(a, m), SubstM(b, m)))
 L_SubstEqHash(a, m) == ImplEq(SubstM(a, m), SubstM(a, m)) /\ ImplSameHash(SubstM(a, m), SubstM(a, m))
 L_WalkStrict(a) == ImplWalkVars(a) = FreeVars(a)
-L_Walk(a) == L_WalkStrict(a) \/ Dev_UnpackedNotWalked(a) \/ Dev_ExtraKeysNotWalked(a)
+L_Walk(a) == L_WalkStrict(a) \/ Dev_UnpackedNotWalked(a)
 \* equality / hashing of two separately built values
 L_PairEqHashStrict(a, b) == ImplEq(a, b) => ImplSameHash(a, b)
 L_PairEqHash(a, b) == L_PairEqHashStrict(a, b) \/ Dev_SignatureParameterOrder(a, b)
